@@ -107,6 +107,19 @@ Theorem olcdm_guard_passes zs1 zs2a zs2b om ok h l0 l1 l2 u0 u1 u2 x0 x1 x2 rg c
 Proof.
   unfold inside, E2. intros. eexists. split; [yields_with ltac:(first [real_fact | (one; lra)]) ltac:(reflexivity) | reflexivity].
 Qed.
+(* the same with a supplied distance table that carries ITS OWN curvature entries: the guard still judges the SAMPLED (om, ok) - the table
+   is merged into the cosmology dictionary only after the guard - and rejects before anything is evaluated *)
+Theorem olcdm_guard_judges_sampled_curvature zs1 zs2a zs2b om ok h okt kt (tab zz : val) l0 l1 l2 u0 u1 u2 x0 x1 x2 rg cu :
+  inside l0 u0 x0 -> inside l1 u1 x1 -> inside l2 u2 x2 ->
+  E2 om ok zs1 <= 0 \/ E2 om ok zs2b <= 0 \/ E2 om ok 1100 <= 0 \/ 1 - om - ok <= 0 ->
+  yields (Gt Ls om ok h) 100 (CFun src_CosmoLikelihood_likelihood) (Some (cl_obj (lenses zs1 zs2a zs2b) "oLCDM" l0 l1 l2 u0 u1 u2)) [VList [num x0; num x1; num x2]]
+    [("kwargs_cosmo_interp", dict [("ang_diameter_distances", tab); ("redshifts", zz); ("ok", num okt); ("K", num kt)])] rg cu
+    (VNum NegInf) cu [("args2kwargs", [VList [num x0; num x1; num x2]])].
+Proof.
+  unfold inside, E2. intros H0 H1 H2 HG.
+  yields_with ltac:(first [real_fact | (one; lra) | (exfalso; one; lra)])
+              ltac:(first [reflexivity | exfalso; one; destruct HG as [HG|[HG|[HG|HG]]]; lra]).
+Qed.
 End Inside.
 
 (* the guard looks at the END POINT only: E^2 can be negative in between although the guard passes (known finding, C02:olcdm_interior_E2) *)
